@@ -225,6 +225,27 @@ def posform(e):
     return mapx(rowform(e), f)
 
 
+def bounded_step(e):
+    """x + min(n, K - x)  ->  min(x + n, K)     and     x - min(n, x - K)  ->  max(x - n, K)
+    (a step that is cut short so that the result stops at the bound K; both spellings denote the same saturating update).
+    Works on normalised expressions, anywhere inside e."""
+    def f(n):
+        if n[0] == "nary" and n[1] == "+" and len(n[2]) == 2:
+            for m, x in (n[2], n[2][::-1]):
+                if m[0] == "call" and m[1] == ("g", "min") and len(m[2]) == 2 and not m[3]:
+                    for d, step in (m[2], m[2][::-1]):
+                        if d[0] == "bin" and d[1] == "-" and strip_epochs(d[3]) == strip_epochs(x):
+                            return norm(("call", ("g", "min"), (norm(("bin", "+", x, step)), d[2]), ()))
+        if n[0] == "bin" and n[1] == "-":
+            x, m = n[2], n[3]
+            if m[0] == "call" and m[1] == ("g", "min") and len(m[2]) == 2 and not m[3]:
+                for d, step in (m[2], m[2][::-1]):
+                    if d[0] == "bin" and d[1] == "-" and strip_epochs(d[2]) == strip_epochs(x):
+                        return norm(("call", ("g", "max"), (norm(("bin", "-", x, step)), d[3]), ()))
+        return None
+    return mapx(e, f)
+
+
 def walk_ordered(e) -> Iterator[tuple]:
     if isinstance(e, tuple):
         if e and isinstance(e[0], str):
